@@ -271,3 +271,12 @@ def mc(ctx):
 
 
 RULES.append(mc)
+
+
+@rule("N5", doc="on a class merge the deprecated class's symmetries are carried over through the argument-wise correspondence deprecated.m ; survivor.m^-1 — never through a positional pairing of the two classes' slots, which depends on how the names sort (C10.G8)")
+def n5(ctx):
+    from . import c10
+    c10.g8(ctx)
+
+
+RULES.append(n5)
